@@ -45,15 +45,243 @@ pub(crate) mod verif_stubs {
         }
     }
 
-    /// Variant of `value_mark_stub` for the map-key harness (keys are tuples).
+    /// Variant of `value_mark_stub` for the map-key harnesses (keys are tuples or ranges).
     pub(crate) fn value_mark_stub_tuple(v: &crate::value::Value) {
         use crate::memory::GcManaged;
         use crate::value::Value;
         match v {
             Value::ObjNative(inner) => inner.mark(),
             Value::ObjTuple(inner) => inner.mark(),
+            Value::ObjRange(inner) => inner.mark(),
             Value::Boolean(_) | Value::Number(_) | Value::None => {}
             _ => panic!("verif: Value variant not modelled by value_mark_stub_tuple"),
+        }
+    }
+}
+
+// ---- verif: reference model standing in for std::collections::HashMap (cfg(kani) only) ------------
+// std's HashMap (hashbrown: SIMD control-byte groups) is not encodable under Kani/CBMC within reach
+// here: one iteration of a one-entry table did not finish in 25 minutes. In harness groups that set
+// "model_hashmap" the check rewrites `use std::collections::HashMap;` in memory.rs, object.rs and vm.rs
+// to this type under cfg(kani). It implements the documented contract of the subset of the API that
+// yarel uses, as an association list: a key denotes the entry whose key has the SAME HASH (through the
+// map's BuildHasher) AND is `==` - exactly the pairs a hash table is guaranteed to identify - so an
+// incoherent Hash/Eq pair is visible as a missed lookup, as it would be in the real table. Iteration is
+// in insertion order (the real order is unspecified; harnesses never assert an order).
+// The entries live INLINE in a fixed array (capacity CAP): a Vec buffer is an untyped heap block to CBMC,
+// and a Value read back from it has an unknown discriminant, which drags every arm of Value::hash /
+// Value::eq (the recursive tuple arms included) into the formula. Exceeding CAP is a harness-bound
+// error ("verif: ..." panics are classified as inconclusive by the check, never as a violation).
+// std::collections::HashMap itself is trusted and outside every claim that uses this model.
+#[cfg(kani)]
+#[allow(dead_code)]
+pub(crate) mod verif_hashmap {
+    use std::borrow::Borrow;
+    use std::hash::{BuildHasher, Hash, Hasher};
+
+    pub const CAP: usize = 4;
+
+    #[derive(Clone, Debug)]
+    pub struct HashMap<K, V, S = std::collections::hash_map::RandomState> {
+        pub(crate) entries: [Option<(K, V)>; CAP],
+        pub(crate) len: usize,
+        hash_builder: S,
+    }
+
+    fn hash_of<Q: Hash + ?Sized, S: BuildHasher>(s: &S, k: &Q) -> u64 {
+        let mut h = s.build_hasher();
+        k.hash(&mut h);
+        h.finish()
+    }
+
+    impl<K, V, S> HashMap<K, V, S> {
+        pub fn with_hasher(hash_builder: S) -> Self {
+            HashMap { entries: [None, None, None, None], len: 0, hash_builder }
+        }
+        pub fn len(&self) -> usize {
+            self.len
+        }
+        pub fn is_empty(&self) -> bool {
+            self.len == 0
+        }
+        pub fn clear(&mut self) {
+            let mut i = 0;
+            while i < CAP {
+                self.entries[i] = None;
+                i += 1;
+            }
+            self.len = 0;
+        }
+        fn entry_at(&self, i: usize) -> &(K, V) {
+            match &self.entries[i] {
+                Some(e) => e,
+                None => panic!("verif: model map slot below len is empty"),
+            }
+        }
+        fn remove_at(&mut self, i: usize) -> (K, V) {
+            let out = self.entries[i].take();
+            let mut j = i;
+            while j + 1 < self.len {
+                self.entries[j] = self.entries[j + 1].take();
+                j += 1;
+            }
+            self.len -= 1;
+            match out {
+                Some(e) => e,
+                None => panic!("verif: model map slot below len is empty"),
+            }
+        }
+        pub fn iter(&self) -> Iter<'_, K, V, S> {
+            Iter { map: self, pos: 0 }
+        }
+        pub fn keys(&self) -> Keys<'_, K, V, S> {
+            Keys { inner: self.iter() }
+        }
+        pub fn values(&self) -> Values<'_, K, V, S> {
+            Values { inner: self.iter() }
+        }
+        pub fn retain<F: FnMut(&K, &mut V) -> bool>(&mut self, mut f: F) {
+            let mut i = 0;
+            while i < self.len {
+                let keep = match &mut self.entries[i] {
+                    Some(e) => f(&e.0, &mut e.1),
+                    None => panic!("verif: model map slot below len is empty"),
+                };
+                if keep {
+                    i += 1;
+                } else {
+                    let _ = self.remove_at(i);
+                }
+            }
+        }
+    }
+
+    impl<K: Eq + Hash, V, S: BuildHasher> HashMap<K, V, S> {
+        fn find<Q: Hash + Eq + ?Sized>(&self, k: &Q) -> Option<usize>
+        where
+            K: Borrow<Q>,
+        {
+            let h = hash_of(&self.hash_builder, k);
+            let mut i = 0;
+            while i < self.len {
+                let ek: &Q = self.entry_at(i).0.borrow();
+                if hash_of(&self.hash_builder, ek) == h && ek == k {
+                    return Some(i);
+                }
+                i += 1;
+            }
+            None
+        }
+        pub fn insert(&mut self, k: K, v: V) -> Option<V> {
+            match self.find(&k) {
+                Some(i) => match &mut self.entries[i] {
+                    Some(e) => Some(std::mem::replace(&mut e.1, v)),
+                    None => panic!("verif: model map slot below len is empty"),
+                },
+                None => {
+                    if self.len >= CAP {
+                        panic!("verif: model map capacity exceeded (harness bound)");
+                    }
+                    self.entries[self.len] = Some((k, v));
+                    self.len += 1;
+                    None
+                }
+            }
+        }
+        pub fn get<Q: Hash + Eq + ?Sized>(&self, k: &Q) -> Option<&V>
+        where
+            K: Borrow<Q>,
+        {
+            match self.find(k) {
+                Some(i) => Some(&self.entry_at(i).1),
+                None => None,
+            }
+        }
+        pub fn get_mut<Q: Hash + Eq + ?Sized>(&mut self, k: &Q) -> Option<&mut V>
+        where
+            K: Borrow<Q>,
+        {
+            match self.find(k) {
+                Some(i) => match &mut self.entries[i] {
+                    Some(e) => Some(&mut e.1),
+                    None => None,
+                },
+                None => None,
+            }
+        }
+        pub fn contains_key<Q: Hash + Eq + ?Sized>(&self, k: &Q) -> bool
+        where
+            K: Borrow<Q>,
+        {
+            self.find(k).is_some()
+        }
+        pub fn remove<Q: Hash + Eq + ?Sized>(&mut self, k: &Q) -> Option<V>
+        where
+            K: Borrow<Q>,
+        {
+            match self.find(k) {
+                Some(i) => Some(self.remove_at(i).1),
+                None => None,
+            }
+        }
+    }
+
+    impl<K: Eq + Hash, V: PartialEq, S: BuildHasher> PartialEq for HashMap<K, V, S> {
+        fn eq(&self, other: &Self) -> bool {
+            if self.len() != other.len() {
+                return false;
+            }
+            let mut i = 0;
+            while i < self.len {
+                let e = self.entry_at(i);
+                match other.get(&e.0) {
+                    Some(v) if *v == e.1 => {}
+                    _ => return false,
+                }
+                i += 1;
+            }
+            true
+        }
+    }
+
+    pub struct Iter<'a, K, V, S> {
+        map: &'a HashMap<K, V, S>,
+        pos: usize,
+    }
+    impl<'a, K, V, S> Iterator for Iter<'a, K, V, S> {
+        type Item = (&'a K, &'a V);
+        fn next(&mut self) -> Option<Self::Item> {
+            if self.pos >= self.map.len {
+                return None;
+            }
+            let e = self.map.entry_at(self.pos);
+            self.pos += 1;
+            Some((&e.0, &e.1))
+        }
+    }
+    pub struct Keys<'a, K, V, S> {
+        inner: Iter<'a, K, V, S>,
+    }
+    impl<'a, K, V, S> Iterator for Keys<'a, K, V, S> {
+        type Item = &'a K;
+        fn next(&mut self) -> Option<Self::Item> {
+            self.inner.next().map(|e| e.0)
+        }
+    }
+    pub struct Values<'a, K, V, S> {
+        inner: Iter<'a, K, V, S>,
+    }
+    impl<'a, K, V, S> Iterator for Values<'a, K, V, S> {
+        type Item = &'a V;
+        fn next(&mut self) -> Option<Self::Item> {
+            self.inner.next().map(|e| e.1)
+        }
+    }
+    impl<'a, K, V, S> IntoIterator for &'a HashMap<K, V, S> {
+        type Item = (&'a K, &'a V);
+        type IntoIter = Iter<'a, K, V, S>;
+        fn into_iter(self) -> Self::IntoIter {
+            self.iter()
         }
     }
 }
